@@ -164,7 +164,8 @@ Mutations(s) == {SubSeq(s, 1, i) : i \in 0..Len(s)} \cup {DelAt(s, i) : i \in 1.
 
 \* the grammar scenario: the string, what it means, and (complete commands only) its mutations
 GScenario == [kind |-> "grammar", str |-> str, hist |-> hist, exp |-> SubsJson(NF(st.subs)), f |-> Features(hist, st),
-              mut |-> IF Len(str) <= 14 THEN Mutations(str) ELSE {}]
+              \* short strings, and strings that end in an arc command (truncated arcs: flags, 7 arguments)
+              mut |-> IF Len(str) <= 14 \/ (Upper(prev) = "A" /\ Len(str) <= 28) THEN Mutations(str) ELSE {}]
 GEmit == (ph = "cmd" /\ Len(hist) >= EmitFrom /\ EmitFrom > 0) => PrintT("@@" \o ToJson(GScenario))
 
 \* model-level: the generator only writes strings whose commands are complete when ph = "cmd", and every
